@@ -51,12 +51,14 @@ CLAIMS = {
   technique="Lean 4 proof: refinement of the expander, wide reduction, regenerated SSWU and isogeny, and complete addition to an independent RFC 9380 specification, for every hash with 32-byte output",
   text="Kernel-checked for every hash function H with 32-byte output, every message, every non-empty DST of any length: HashToGroup/EncodeToGroup return a valid element whose abstract point is "
        "hash_to_curve/encode_to_curve of RFC 9380 (expand_message_xmd incl. the oversize rule, hash_to_field, textbook SSWU, E.1 isogeny, addition in the group); an empty DST panics.",
-  note=TB + "SHA-256 is a parameter of the theorems (the driver's Lean SHA-256 is sampled against crypto/sha256). xmd.go/group.go composition is a hand model tied by the xmd, h2c and chosenu families "
-       "(the latter pushes chosen expander outputs through the real function bodies)."),
+  note=TB + "SHA-256 is a parameter of the theorems (the driver's Lean SHA-256 is sampled against crypto/sha256). xmd.go and the three compositions of group.go are regenerated by go2lean on every run (byte-slice mode: Option monad, loops, bounds checks, alias classes checked) "
+       "and proved equal to the model (expander_regenerated, hashToGroup_regenerated, encodeToGroup_regenerated); the wide reduction's byte parsing is a hand model tied by the fh2f family; the xmd, h2c and chosenu "
+       "families run the real function bodies (the latter on chosen expander outputs)."),
  "C09": dict(
   technique="Lean 4 proof: HashToScalar refines OS2IP(expand_message_xmd) mod n; 48-byte wide reduction proved for all inputs",
   text="Kernel-checked for every hash with 32-byte output: HashToScalar returns the canonical scalar OS2IP(expand_message_xmd(msg, DST, 48)) mod n; the wide reduction is exact on all 2^384 inputs; empty DST panics.",
-  note=TB + "Same hash/expander assumptions as C08; tied by the h2s and sfh2f families."),
+  note=TB + "Same hash assumption as C08; expandXMD and HashToScalar are regenerated on every run and proved equal to the model (expander_regenerated, hashToScalar_regenerated); "
+       "the wide reduction's byte parsing is a hand model tied by the h2s and sfh2f families."),
  "C10": dict(
   technique="Lean 4 proof: invariant + refinement of a concrete pool machine (built from the API model) to an abstract machine on points and integers mod n, by induction over the operation list",
   text="Kernel-checked (step_refines, obs_refines, history_refines, always_valid, non_receivers_unchanged, copy_independent): for every finite history of API calls from the initial pools, with any "
@@ -88,7 +90,9 @@ CLAIMS = {
   text="Kernel-checked: in the Go-slice model of vetDSTXMD every pre-existing buffer is unchanged and the result is a new buffer, for every heap, offset, length, capacity and spare-capacity content; "
        "the regenerated analysis shows no statement reachable from a slice-taking API function can write through a slice parameter. Run time: every such function on slices carved out of "
        "sentinel-filled arrays in 7 layouts, backing arrays compared before/after, returned buffers mutated and sources re-read.",
-  note=TB + "Partial: the Go allocator and escape analysis are not modelled ('fresh' = not aliasing any buffer the model knows); h.Write is taken to only read its argument."),
+  note=TB + "The regenerated expander (byte-slice mode of go2lean) records every overwrite of / append into a slice parameter's memory while checking that value semantics is sound "
+       "(expander_leaves_arguments_alone), and its vetDSTXMD is proved to be the model's (vetDST_regenerated). Partial: the Go allocator and escape analysis are not modelled ('fresh' = not aliasing "
+       "any buffer the model knows); h.Write is taken to only read its argument."),
  "C16": dict(
   technique="Lean 4 proof over an interleaving/footprint model (race freedom and solo-run equivalence for every schedule, by induction) instantiated with the API's footprint table regenerated by a may-write analysis + race-detector run",
   text="Kernel-checked (api_schedule_disciplined, api_race_free, api_deterministic): for any number of goroutines, any API functions, any sharing of arguments and any interleaving, if every goroutine owns its receivers "
